@@ -552,3 +552,52 @@ var phf1 = func(a int) int {
 	}
 	return x
 }
+
+// function literals as targets; each calls a named helper directly (the helper is a neighbour that must stay intact)
+
+//go:noinline
+func LitHelper(a int) int { return a*17 + 600 }
+
+var Lit0 = func(a int) int { return LitHelper(a) + 1 }
+
+var Lit1 = func(a int) int { return LitHelper(a) + sink[0]*0 + 2 }
+
+var phl0 = func(a int) int {
+	x := a
+	for i := 0; i < len(sink); i++ {
+		x = x*31 + i
+		sink[i&7] += x
+		if x&1 == 0 {
+			x ^= sink[(i+1)&7]
+		} else {
+			x += sink[(i+3)&7] * 7
+		}
+		sink[(i+5)&7] -= x >> 3
+		if x%7 == 3 {
+			x = x*x + sink[(i+2)&7]
+		}
+		sink[(i+6)&7] ^= x << 2
+		x += sink[(i+4)&7]*13 - sink[(i+7)&7]*17
+	}
+	return x
+}
+
+var phl1 = func(a int) int {
+	x := a
+	for i := 0; i < len(sink); i++ {
+		x = x*31 + i
+		sink[i&7] += x
+		if x&1 == 0 {
+			x ^= sink[(i+1)&7]
+		} else {
+			x += sink[(i+3)&7] * 7
+		}
+		sink[(i+5)&7] -= x >> 3
+		if x%7 == 3 {
+			x = x*x + sink[(i+2)&7]
+		}
+		sink[(i+6)&7] ^= x << 2
+		x += sink[(i+4)&7]*13 - sink[(i+7)&7]*17
+	}
+	return x
+}
